@@ -96,6 +96,10 @@ func (f *Font) MakeGlyphNames() []string {
 		a, b := cmap.CodeRange()
 		for r := a; r <= b; r++ {
 			gid := cmap.Lookup(r)
+			if int(gid) >= len(glyphNames) {
+				// The cmap refers to a glyph which the font does not have.
+				continue
+			}
 			if glyphNames[gid] != "" {
 				// This includes the case of unmapped runes (gid == 0).
 				continue
